@@ -1,11 +1,11 @@
 #!/bin/bash
-# tools/seed_process.sh <PROP> [src-worktree] : confirm, keep and evaluate the seeds an agent left in <worktree>/seed/{1,2}
-P=$1; WT=${2:-/tmp/wt-$P}
+# tools/seed_process.sh <PROP> [src-worktree] [id-offset] : confirm, keep and evaluate the seeds an agent left in <worktree>/seed/{1,2}
+P=$1; WT=${2:-/tmp/wt-$P}; OFF=${3:-0}
 cd /verif; mkdir -p seeded
 for k in 1 2 3; do
   S=$WT/seed/$k
   [ -f $S/patch.diff ] || continue
-  id=$P-$k
+  id=$P-$((k+OFF))
   conf=$(tools/seed_confirm.sh $S 2>&1 | tail -1)
   echo "$id confirm: $conf"
   case "$conf" in CONFIRMED*) ;; *) echo -e "$id\t$P\trejected\t$conf" >> seeded/REJECTED.tsv; continue;; esac
